@@ -503,7 +503,7 @@ Proof.
       apply at_some; [now destruct (good_all s Hv)|]. eapply forallb_forall in Hidx; eauto. }
     rewrite (all_some_somes _ Hall). reflexivity.
   - simpl in Hv, Hb, Hg, Hl.
-    apply andb_true_iff in Hb as [Hbb Hb]. destruct b; [discriminate|].
+    apply andb_true_iff in Hb as [Hbb Hb]. destruct b; [discriminate|]. simpl in Hg.
     apply andb_true_iff in Hv as [Hv _]. apply andb_true_iff in Hv as [Hv _].
     apply andb_true_iff in Hv as [_ Hval]. apply andb_true_iff in Hl as [Hl Hy].
     simpl getall. rewrite Hg. unfold map_of. simpl den_of. simpl flat. simpl yields_list.
@@ -539,22 +539,43 @@ Proof.
   rewrite Hm, all_some_nth_error. reflexivity.
 Qed.
 
-(* bulk accessor agrees element-wise with the per-sample accessor *)
+(* a stack offers getall_x only when no balanced concat is anywhere below (a balanced
+   KDConcatDataset raises AttributeError, KDSubset / KDConcatDataset / KDWrapper look below first) *)
+Lemma has_getall_no_balanced s : has_getall s = true -> no_balanced s = true.
+Proof.
+  induction s as [id n pk | t idxs s IH | b parts IH | t s IH] using stack_ind'; simpl; intros H; auto.
+  apply andb_true_iff in H as [Hb Hp]. rewrite Hb. simpl.
+  clear Hb. induction parts as [|p ps IHp]; [reflexivity|].
+  inversion IH as [|? ? IH1 IH2]; subst. simpl in *.
+  apply andb_true_iff in Hp as [H1 H2]. rewrite (IH1 H1). simpl. apply IHp; assumption.
+Qed.
+
+(* bulk accessor agrees element-wise with the per-sample accessor, for every valid stack with a length *)
 Lemma getall_eq_map_getitem s :
-  valid s = true -> no_balanced s = true -> lists_ok s = true ->
+  valid s = true -> is_fin (den_of s) = true -> lists_ok s = true ->
   exists b, util_getall s = GOk b (map_of s)
     /\ (has_getall s = true -> getall s = GOk b (map_of s))
     /\ slen s = Some (zlen (map_of s))
     /\ forall k, 0 <= k < zlen (map_of s) -> nth_error (map_of s) (Z.to_nat k) = resolve s k.
 Proof.
-  intros Hv Hb Hl. pose proof (no_balanced_fin s Hb) as Hf.
+  intros Hv Hf Hl.
   assert (Hk : forall k, 0 <= k < zlen (map_of s) -> nth_error (map_of s) (Z.to_nat k) = resolve s k).
   { intros k Hk. rewrite resolve_is_nth_map; [|assumption|assumption|lia].
     assert (k <? 0 = false) as -> by lia. reflexivity. }
   destruct (has_getall s) eqn:Hg.
-  - exists (yields_list s). unfold util_getall. rewrite Hg.
+  - pose proof (has_getall_no_balanced s Hg) as Hb.
+    exists (yields_list s). unfold util_getall. rewrite Hg.
     rewrite (getall_is_map s Hv Hb Hg Hl). repeat split; auto using len_is_length_map.
   - exists true. rewrite (util_getall_slow s Hv Hf Hg). repeat split; auto using len_is_length_map. discriminate.
+Qed.
+
+(* wherever getall_x is offered at all it is the index map *)
+Lemma getall_offered_is_map s :
+  valid s = true -> lists_ok s = true -> has_getall s = true ->
+  getall s = GOk (yields_list s) (map_of s) /\ is_fin (den_of s) = true.
+Proof.
+  intros Hv Hl Hg. pose proof (has_getall_no_balanced s Hg) as Hb.
+  split; [apply getall_is_map; assumption | apply no_balanced_fin; exact Hb].
 Qed.
 
 (* ---------------- introspection ---------------- *)
@@ -608,11 +629,7 @@ Proof.
   specialize (IH1 Hc). destruct (roots p); simpl in *; [discriminate|exact IH1].
 Qed.
 
-(* the recorded finding: getall below a subset ignores balanced sampling *)
+(* the formerly recorded finding (getall below a subset ignored balanced sampling), now a regression example:
+   the subset over a balanced concat offers no getall_x and utils.getall yields the round-robin map *)
 Definition balanced_witness : stack :=
   Sub 0 [0; 1; 2; 3] (Cat true [Root 0 2 PList; Root 1 3 PList]).
-
-Lemma getall_balanced_refuted :
-  exists s, valid s = true /\ has_getall s = true /\ lists_ok s = true /\
-            getall s <> GOk true (map_of s).
-Proof. exists balanced_witness. repeat split; vm_compute; congruence. Qed.
